@@ -178,6 +178,8 @@ func c07Units(tier string) []Unit {
 		{"decorators", alpha{scopes: []int{0, 1}, ctors: []*uFunc{pA, pB}, decos: []*uFunc{dAe, dABe}, invokes: []*uFunc{iA, iB}}, []string{"dAe", "dABe"}, prefixChild},
 		{"group-decorator", alpha{scopes: []int{0, 1}, ctors: []*uFunc{fG1e, fG1}, decos: []*uFunc{dGe}, invokes: []*uFunc{iG, iGs}}, []string{"fG1e", "dGe"}, prefixChild},
 		{"deco-over-failing-ctor", alpha{scopes: []int{0, 1}, ctors: []*uFunc{pAe, pBe}, decos: []*uFunc{dAe}, invokes: []*uFunc{iA, iB}}, []string{"pAe", "dAe"}, prefixChild},
+		{"reentry-single", alpha{scopes: []int{0, 1}, ctors: []*uFunc{pA, pBe}, decos: []*uFunc{dABae}, invokes: []*uFunc{iA, iB}}, []string{"dABae", "pBe"}, prefixChild},
+		{"reentry-group", alpha{scopes: []int{0, 1}, ctors: []*uFunc{pA, fBgAe}, decos: []*uFunc{dGBAe}, invokes: []*uFunc{iA, iGB}}, []string{"dGBAe", "fBgAe"}, prefixChild},
 	}
 	for _, f := range fams {
 		for _, plan := range faultPlans(f.faulty, behs, true) {
@@ -338,6 +340,8 @@ func c13Units(tier string) []Unit {
 		{"decorators", alpha{scopes: []int{0, 1}, ctors: []*uFunc{pAe, pBe}, decos: []*uFunc{dAe, dABe}, invokes: []*uFunc{iAe, iBe}}, []string{"dAe", "dABe", "pAe"}, prefixChild},
 		{"group-decorator", alpha{scopes: []int{0, 1}, ctors: []*uFunc{fG1e, pCe}, decos: []*uFunc{dGe}, invokes: []*uFunc{iCe, iOe}}, []string{"dGe", "fG1e"}, prefixChild},
 		{"panic-only-functions", alpha{scopes: []int{0, 1}, ctors: []*uFunc{pA, pBp}, decos: []*uFunc{dAp}, invokes: []*uFunc{iA, iB}}, []string{"pBp", "dAp", "iA"}, prefixChild},
+		{"reentry-single", alpha{scopes: []int{0, 1}, ctors: []*uFunc{pA, pBe}, decos: []*uFunc{dABae}, invokes: []*uFunc{iAe, iBe}}, []string{"dABae", "pBe"}, prefixChild},
+		{"reentry-group", alpha{scopes: []int{0, 1}, ctors: []*uFunc{pA, fBgAe}, decos: []*uFunc{dGBAe}, invokes: []*uFunc{iAe, iGB}}, []string{"dGBAe", "fBgAe"}, prefixChild},
 	}
 	for _, f := range fams {
 		for _, plan := range faultPlans(f.faulty, behs, false) {
